@@ -194,7 +194,7 @@ impl Prop for C10 {
         }
     }
     fn required_probes(&self, _tier: Tier) -> Vec<&'static str> {
-        vec!["enospc_on_final_flush", "enospc_midrun", "crash_between_renames", "crash_inside_write", "limit_zero", "stale_same_name_final_present", "start_above_tip", "input_fault_on_full_device", "input_fault_met_before_any_write_failure", "input_fault_in_single_file_directory", "catchable_signal_delivered", "signal_mid_range"]
+        vec!["enospc_on_final_flush", "enospc_midrun", "crash_between_renames", "crash_inside_write", "limit_zero", "stale_same_name_final_present", "start_above_tip", "input_fault_on_full_device", "input_fault_met_before_any_write_failure", "input_fault_in_single_file_directory", "catchable_signal_delivered", "signal_mid_range", "truncation_inside_a_block_over_128k"]
     }
     fn explore(&self, item: u64, _rng: &mut Rng, _tier: Tier, h: &mut Harness) -> Result<(), String> {
         // every slice regenerates the same world and baseline, then runs its share of the enumeration
@@ -209,7 +209,9 @@ impl Prop for C10 {
         };
         let world = self.base_world(item, rng);
         let cb = CBS[(item % 3) as usize];
-        let cap = *rng.pick(&[1usize, 7, 64, 4096, 4_000_000, 4_000_000]);
+        let big_world = chain_bytes(&world.chain) > 100_000;
+        // (a writer capacity of a few bytes on hundreds of KB of output means millions of write events per run)
+        let cap = if big_world { *rng.pick(&[4096usize, 65_536, 4_000_000]) } else { *rng.pick(&[1usize, 7, 64, 4096, 4_000_000, 4_000_000]) };
         let mut base_run = RunSpec::new(cb);
         base_run.threads = *rng.pick(&[1usize, 2, 8]);
         base_run.plan.writer_cap = Some(cap);
@@ -248,6 +250,15 @@ impl Prop for C10 {
                 bytes: Bytes(b"older result\n".to_vec()),
             },
         ];
+        // what a failed or killed run of ANOTHER dump callback left in the same folder: its *.csv.tmp files
+        for st in ["blocks", "transactions", "tx_in", "tx_out", "unspent", "balances"] {
+            if !stems_of(cb).contains(&st) && rng.coin() {
+                pre.push(PreFile {
+                    name: format!("{}.csv.tmp", st),
+                    bytes: Bytes(b"partial rows of a run that failed\n".repeat(rng.usize(1, 50))),
+                });
+            }
+        }
         for st in stems_of(cb) {
             pre.push(PreFile {
                 name: format!("{}-{}-{}.csv", st, s, e),
@@ -306,6 +317,27 @@ impl Prop for C10 {
                 if mine() {
                     let mut c = mk("input-fault", &|r| r.disk_faults = vec![f.clone()]);
                     c.layouts = vec![single_file_layout(nb)];
+                    h.check(&mut c)?;
+                }
+            }
+        }
+        // (1d) a block of a few hundred KB (bulk-read paths, buffers larger than the file tail) cut short at
+        // several places — only this fault kind is run on the big world, nothing else is enumerated on it
+        if item % 2 == 0 {
+            let hh = (s + e) / 2;
+            let mut bigw = world.clone();
+            let fill = rng.next() as u8;
+            let blen = rng.usize(140_000, 400_000);
+            bigw.chain[hh as usize].txs[0].inputs[0].script_sig = Bytes(vec![fill; blen]);
+            for off in [5u64, 90, 200, blen as u64 / 2, blen as u64 - 7, blen as u64 + 20] {
+                if mine() {
+                    let mut c = mk("input-fault", &|r| {
+                        r.disk_faults = vec![DiskFault::Truncate { height: hh, off }];
+                        r.plan.chunk_blk = vec![];
+                        r.plan.writer_cap = Some(4_000_000);
+                    });
+                    c.chain = bigw.chain.clone();
+                    h.stats.probe("truncation_inside_a_block_over_128k");
                     h.check(&mut c)?;
                 }
             }
@@ -370,7 +402,7 @@ impl Prop for C10 {
             limits.dedup();
         }
         for l in &limits {
-            for capx in [cap, if cap == 4_000_000 { 64 } else { 4_000_000 }] {
+            for capx in [cap, if cap == 4_000_000 { if big_world { 16_384 } else { 64 } } else { 4_000_000 }] {
                 if maxsize > 2000 && capx != cap && rng.chance(2, 3) {
                     continue;
                 }
@@ -390,7 +422,7 @@ impl Prop for C10 {
             for hh in hs {
                 for f in [DiskFault::RemoveFile { height: hh }, DiskFault::Truncate { height: hh, off: 44 }] {
                     for l in [0u64, maxsize / 2] {
-                        for capx in [4_000_000usize, 7] {
+                        for capx in [4_000_000usize, if big_world { 8192 } else { 7 }] {
                             if mine() {
                                 h.check(&mut mk("input-fault+limit", &|r| {
                                     r.disk_faults = vec![f.clone()];
